@@ -16,16 +16,30 @@
 SMOOTH_BEGIN_NAMESPACE
 
 namespace detail {
+
+/**
+ * @brief Squared argument below which the Taylor tails are evaluated by their series.
+ *
+ * The closed form of the tail of order n cancels catastrophically for small arguments (relative error of about
+ * n! * machine_epsilon / x^n), long before x reaches the generic small-angle threshold eps2 and in particular
+ * in single precision. The series below are accurate to machine precision for x^2 <= eps2_tails.
+ */
+static constexpr double eps2_tails = 1.;
+
 template<typename S>
 S cos_2(const S & x2)
 {
   using std::cos, std::sqrt;
 
-  if (x2 > S(eps2)) {
+  if (x2 > S(eps2_tails)) {
     const S x = sqrt(x2);
     return (cos(x) - S(1)) / x2;
   } else {
-    return -S(1) / S(2) + x2 / S(24) - x2 * x2 / S(720);
+    // Horner form of the series, 9 terms
+    return -S(1) / S(2)
+      * (S(1) - x2 / S(12) * (S(1) - x2 / S(30) * (S(1) - x2 / S(56)
+        * (S(1) - x2 / S(90) * (S(1) - x2 / S(132) * (S(1) - x2 / S(182)
+        * (S(1) - x2 / S(240) * (S(1) - x2 / S(306)))))))));
   }
 }
 
@@ -34,11 +48,15 @@ S sin_3(const S & x2)
 {
   using std::sin, std::sqrt;
 
-  if (x2 > S(eps2)) {
+  if (x2 > S(eps2_tails)) {
     const S x = sqrt(x2);
     return (sin(x) - x) / (x2 * x);
   } else {
-    return -S(1) / S(6) + x2 / S(120) - x2 * x2 / S(5040);
+    // Horner form of the series, 9 terms
+    return -S(1) / S(6)
+      * (S(1) - x2 / S(20) * (S(1) - x2 / S(42) * (S(1) - x2 / S(72)
+        * (S(1) - x2 / S(110) * (S(1) - x2 / S(156) * (S(1) - x2 / S(210)
+        * (S(1) - x2 / S(272) * (S(1) - x2 / S(342)))))))));
   }
 }
 
@@ -47,11 +65,15 @@ S cos_4(const S & x2)
 {
   using std::cos, std::sqrt;
 
-  if (x2 > S(eps2)) {
+  if (x2 > S(eps2_tails)) {
     const S x = sqrt(x2);
     return (cos(x) - S(1) + x2 / S(2)) / (x2 * x2);
   } else {
-    return S(1) / S(24) - x2 / S(720) + (x2 * x2) / S(40320);
+    // Horner form of the series, 9 terms
+    return S(1) / S(24)
+      * (S(1) - x2 / S(30) * (S(1) - x2 / S(56) * (S(1) - x2 / S(90)
+        * (S(1) - x2 / S(132) * (S(1) - x2 / S(182) * (S(1) - x2 / S(240)
+        * (S(1) - x2 / S(306) * (S(1) - x2 / S(380)))))))));
   }
 }
 
@@ -60,11 +82,15 @@ S sin_5(const S & x2)
 {
   using std::sin, std::sqrt;
 
-  if (x2 > S(eps2)) {
+  if (x2 > S(eps2_tails)) {
     const S x = sqrt(x2);
     return (sin(x) - x + x2 * x / 6) / (x2 * x2 * x);
   } else {
-    return S(1) / S(120) - x2 / S(5040) + x2 * x2 / S(362880);
+    // Horner form of the series, 9 terms
+    return S(1) / S(120)
+      * (S(1) - x2 / S(42) * (S(1) - x2 / S(72) * (S(1) - x2 / S(110)
+        * (S(1) - x2 / S(156) * (S(1) - x2 / S(210) * (S(1) - x2 / S(272)
+        * (S(1) - x2 / S(342) * (S(1) - x2 / S(420)))))))));
   }
 }
 
@@ -74,11 +100,15 @@ S cos_6(const S & x2)
   using std::cos, std::sqrt;
 
   const S x4 = x2 * x2;
-  if (x2 > S(eps2)) {
+  if (x2 > S(eps2_tails)) {
     const S x = sqrt(x2);
     return (cos(x) - S(1) + x2 / S(2) - x4 / S(24)) / (x4 * x2);
   } else {
-    return -S(1) / S(720) + x2 / S(40320) - x4 / S(3628800);
+    // Horner form of the series, 9 terms
+    return -S(1) / S(720)
+      * (S(1) - x2 / S(56) * (S(1) - x2 / S(90) * (S(1) - x2 / S(132)
+        * (S(1) - x2 / S(182) * (S(1) - x2 / S(240) * (S(1) - x2 / S(306)
+        * (S(1) - x2 / S(380) * (S(1) - x2 / S(462)))))))));
   }
 }
 
